@@ -199,3 +199,47 @@ def run_tags(g, steps):
             tags.append("nullable_nonempty_body_selected_by_first")
             break
     return tags
+
+
+# ----------------------------------------------------------------------------------------
+# oracle validation (DESIGN 2.4): the fixtures literally asserted in pyformlang/cfg/tests/
+# test_llone_parser.py pushed through O-CFG / O-LL1. `vf selfcheck` runs every `check_*` function of the
+# modules listed in vlib/selfcheck.py:MODULES - add "vlib.oracles.ll1" there to include this one.
+
+def check_llone_fixtures():
+    from pyformlang.cfg import CFG
+    from pyformlang.cfg.llone_parser import LLOneParser
+    expr = """
+        E  -> T E’
+        E’ -> + T E’ | Є
+        T  -> F T’
+        T’ -> * F T’ | Є
+        F  -> ( E ) | id
+    """
+    cfg1 = CFG.from_text(expr, start_symbol="E")
+    g1 = OC.extract(cfg1)
+    first, follow = OC.first_sets(g1), OC.follow_sets(g1)
+    assert first == {"E": {"(", "id"}, "E’": {"+", EPS}, "T": {"(", "id"}, "T’": {"*", EPS}, "F": {"(", "id"}}
+    assert follow == {"E": {END, ")"}, "E’": {END, ")"}, "T": {END, "+", ")"}, "T’": {END, "+", ")"},
+                      "F": {END, "+", "*", ")"}}
+    assert OC.is_ll1(g1)
+    g2 = OC.extract(CFG.from_text("""
+        S -> A C B | C b b | B a
+        A -> d a | B C
+        B -> g | Є
+        C -> h | Є
+    """))
+    first, follow = OC.first_sets(g2), OC.follow_sets(g2)
+    assert first == {"S": {"d", "g", "h", "b", "a", EPS}, "A": {"d", "g", "h", EPS}, "B": {"g", EPS},
+                     "C": {"h", EPS}}
+    assert follow == {"S": {END}, "A": {END, "h", "g"}, "B": {END, "h", "g", "a"}, "C": {END, "h", "g", "b"}}
+    assert not OC.is_ll1(OC.extract(CFG.from_text("S -> A | a\nA -> a", start_symbol="S")))
+    assert ll1_run(g1, ["id", "+", "id", "*", "id"])[0] == "accept"
+    assert ll1_run(g1, ["id", "+"])[0] == "error"
+    assert ll1_run(g1, ["id", ")"])[0] == "stack_empty"
+    parser = LLOneParser(cfg1)
+    for table, want, end_marker in ((parser.get_first_set(), OC.first_sets(g1), False),
+                                    (parser.get_follow_set(), OC.follow_sets(g1), True)):
+        got = read_sets(table, g1.variables, end_marker)
+        assert all(not problems for _, problems in got.values())
+        assert {k: v for k, (v, _) in got.items()} == want
